@@ -27,8 +27,12 @@ LIST_POOL = [
     'v12 := []',
     'v13 := [@h10@, null]',
     'v14 := [@b1@, @h11@]',
+    'v15 := [[@h10@], [@h13@]]',
+    'v16 := [c, c, c]',
+    'v17 := [[@h10@], [@h10@], ["x"]]',
 ]
-LIST_NAMES = ['c', 'w'] + ['v%d' % i for i in range(15)]
+LIST_NAMES = ['c', 'w'] + ['v%d' % i for i in range(18)]
+QUICK_LIST = ['c', 'w', 'v0', 'v1', 'v2', 'v3', 'v4', 'v5', 'v6', 'v7', 'v8', 'v9', 'v15', 'v16', 'v17']
 OBJ_POOL = [
     'c := [@h10@]',
     'o0 := {"a": @h10@, "b": @h11@}',
@@ -47,8 +51,10 @@ OBJ_POOL = [
     'o11 := {"": @h10@, " x": @h11@}',
     'o12 := [o0]',
     'o13 := {"a": o4, "b": o4}',
+    'o14 := {"a": {"a": @h10@}, "b": {"a": @h13@}}',
 ]
-OBJ_NAMES = ['o%d' % i for i in range(14)]
+OBJ_NAMES = ['o%d' % i for i in range(15)]
+QUICK_OBJ = ['o0', 'o1', 'o2', 'o3', 'o4', 'o5', 'o6', 'o7', 'o8', 'o9', 'o13', 'o14']
 
 def pair_template(name, pool, names, tier):
     n = len(names)
@@ -60,8 +66,8 @@ def pair_template(name, pool, names, tier):
 def templates(tier, seed=0):
     ts = []
     if tier == 'quick':
-        ts.append(pair_template('list-pairs', LIST_POOL, LIST_NAMES[:12], tier))
-        ts.append(pair_template('obj-pairs', OBJ_POOL, OBJ_NAMES[:10], tier))
+        ts.append(pair_template('list-pairs', LIST_POOL, QUICK_LIST, tier))
+        ts.append(pair_template('obj-pairs', OBJ_POOL, QUICK_OBJ, tier))
     else:
         ts.append(pair_template('list-pairs', LIST_POOL, LIST_NAMES, tier))
         ts.append(pair_template('obj-pairs', OBJ_POOL, OBJ_NAMES, tier))
